@@ -10,6 +10,7 @@ import (
 	"runtime"
 	"strings"
 	"sync"
+	"sync/atomic"
 
 	"github.com/openacid/slim/trie"
 )
@@ -241,6 +242,14 @@ func checkC11(c *Case, s *Stats) error {
 			}
 		}
 	}
+	// 3. MANY scans in flight at once on the shared instance ("any number of
+	// goroutines"): every goroutine blocks inside its first callback until all
+	// scans have started, so that N scans are open at the same time.
+	if complete && len(m.Keys) >= 2 {
+		if err := manyScansInFlight(st, st2, m.Keys, len(c.Keys)+len(c.Workers), s); err != nil {
+			return err
+		}
+	}
 	sh, ok := shapeOf(st2)
 	classify(s, c, m, sh, ok)
 	nops := 0
@@ -467,5 +476,185 @@ func concurrentIndexes(round int, s *Stats) error {
 	s.doneHash(uint64(round)|1<<41, true)
 	s.calls(n)
 	s.class("concurrent_independent_index_builds")
+	return nil
+}
+
+// manyScansInFlight: N (63..200) ScanFrom calls open at the same time on one
+// trie, N iterators open at the same time in one goroutine, and ScanFrom nested
+// N levels deep in callbacks; each must yield what the same scan yields alone
+// (computed on the twin st2).
+func manyScansInFlight(st, st2 *trie.SlimTrie, keys []string, sel int, s *Stats) error {
+	ns := []int{63, 64, 65, 66, 100, 127, 128, 129, 130, 200}
+	n := ns[sel%len(ns)]
+	const want = 6
+	alone := func(t *trie.SlimTrie, start string) []string {
+		var out []string
+		t.ScanFrom(start, true, false, func(k, v []byte) bool {
+			out = append(out, string(k))
+			return len(out) < want
+		})
+		return out
+	}
+	starts := make([]string, n)
+	base := make([][]string, n)
+	if err := guard("ScanFrom alone", func() error {
+		for g := range starts {
+			starts[g] = keys[(g*7+sel)%len(keys)]
+			base[g] = alone(st2, starts[g])
+		}
+		return nil
+	}); err != nil {
+		return err
+	}
+	// (a) n goroutines, all inside their first callback at the same time
+	// Odd goroutines are released first: they finish, and each then runs a SECOND,
+	// new scan while the even ones are still open inside their first callback;
+	// then the even ones continue.
+	got := make([][]string, n)
+	second := make([][]string, n)
+	errs := make([]error, n)
+	var arrived int32
+	all := make(chan struct{})
+	arrive := func() {
+		if atomic.AddInt32(&arrived, 1) == int32(n) {
+			close(all)
+		}
+	}
+	oddDone := make(chan struct{})
+	var oddWG, wg sync.WaitGroup
+	for g := 0; g < n; g++ {
+		g := g
+		wg.Add(1)
+		if g%2 == 1 {
+			oddWG.Add(1)
+		}
+		go func() {
+			defer wg.Done()
+			here := false
+			finished := false
+			defer func() {
+				if !here { // the scan died before its first callback: do not block the others
+					arrive()
+				}
+				if g%2 == 1 && !finished {
+					oddWG.Done()
+				}
+			}()
+			errs[g] = guard("ScanFrom with many scans in flight", func() error {
+				st.ScanFrom(starts[g], true, false, func(k, v []byte) bool {
+					got[g] = append(got[g], string(k))
+					if !here {
+						here = true
+						arrive()
+						<-all
+						if g%2 == 0 {
+							<-oddDone
+						}
+					}
+					return len(got[g]) < want
+				})
+				if g%2 == 1 {
+					second[g] = alone(st, starts[g])
+					finished = true
+					oddWG.Done()
+				}
+				return nil
+			})
+		}()
+	}
+	go func() { oddWG.Wait(); close(oddDone) }()
+	wg.Wait()
+	for g := 0; g < n; g++ {
+		if errs[g] != nil {
+			return errs[g]
+		}
+		if strings.Join(got[g], "\x00") != strings.Join(base[g], "\x00") {
+			return viol("concurrent-differs", "ScanFrom(%s) with %d scans in flight on the same trie yielded %d keys %.120q, alone %.120q", q(starts[g]), n, len(got[g]), got[g], base[g])
+		}
+		if g%2 == 1 && strings.Join(second[g], "\x00") != strings.Join(base[g], "\x00") {
+			return viol("concurrent-differs", "a second ScanFrom(%s), started while %d scans were open on the same trie, yielded %.120q, alone %.120q", q(starts[g]), (n+1)/2, second[g], base[g])
+		}
+	}
+	if err := deepScans(st, starts, base, want); err != nil {
+		return err
+	}
+	s.class(fmt.Sprintf("scans_in_flight=%d", n))
+	s.calls(3 * n)
+	return nil
+}
+
+// deepScans, in ONE goroutine: (b) len(starts) iterators open at the same time,
+// stepped round-robin; (c) ScanFrom nested len(starts) levels deep in callbacks,
+// with a new sibling scan started at every level after the deeper ones finished.
+// base[g] is what the scan from starts[g] yields alone (at most want keys).
+func deepScans(st *trie.SlimTrie, starts []string, base [][]string, want int) error {
+	n := len(starts)
+	alone := func(t *trie.SlimTrie, start string) []string {
+		var out []string
+		t.ScanFrom(start, true, false, func(k, v []byte) bool {
+			out = append(out, string(k))
+			return len(out) < want
+		})
+		return out
+	}
+	// (b) n iterators open at the same time in one goroutine, stepped round-robin
+	if err := guard("many open iterators", func() error {
+		its := make([]trie.NextRaw, n)
+		for g := range its {
+			its[g] = st.NewIter(starts[g], true, false)
+		}
+		res := make([][]string, n)
+		for step := 0; step < want; step++ {
+			for g := range its {
+				if len(res[g]) == step {
+					if k, _ := its[g](); k != nil {
+						res[g] = append(res[g], string(k))
+					}
+				}
+			}
+		}
+		for g := range its {
+			if strings.Join(res[g], "\x00") != strings.Join(base[g], "\x00") {
+				return viol("iterator-interference", "iterator %d of %d open ones, from %s: yielded %.120q, alone %.120q", g, n, q(starts[g]), res[g], base[g])
+			}
+		}
+		return nil
+	}); err != nil {
+		return err
+	}
+	// (c) ScanFrom nested n levels deep: level g scans from starts[g], takes its
+	// first key, descends, and continues its own scan afterwards
+	nested := make([][]string, n)
+	var sibErr error
+	var descend func(g int)
+	descend = func(g int) {
+		if g == n {
+			return
+		}
+		first := true
+		st.ScanFrom(starts[g], true, false, func(k, v []byte) bool {
+			nested[g] = append(nested[g], string(k))
+			if first {
+				first = false
+				descend(g + 1)
+				// a NEW scan started after the deeper ones have finished, while the outer ones are open
+				if sib := alone(st, starts[g]); strings.Join(sib, "\x00") != strings.Join(base[g], "\x00") && sibErr == nil {
+					sibErr = viol("iterator-interference", "ScanFrom(%s) started inside %d open scans yielded %.120q, alone %.120q", q(starts[g]), g+1, sib, base[g])
+				}
+			}
+			return len(nested[g]) < want
+		})
+	}
+	if err := guard("nested scans", func() error { descend(0); return nil }); err != nil {
+		return err
+	}
+	if sibErr != nil {
+		return sibErr
+	}
+	for g := 0; g < n; g++ {
+		if strings.Join(nested[g], "\x00") != strings.Join(base[g], "\x00") {
+			return viol("iterator-interference", "ScanFrom(%s) nested at depth %d of %d yielded %.120q, alone %.120q", q(starts[g]), g, n, nested[g], base[g])
+		}
+	}
 	return nil
 }
